@@ -479,6 +479,25 @@ def sten_all(b, axes):
     return b
 
 
+def sten_r(b, axes, radii):
+    """Asymmetric stencil of radius `radii[j]` along `axes[j]` (so the whole halo of depth = radius is
+    read), truncated at the ends of whatever array it is given."""
+    b = np.asarray(b)
+    for ax, r in zip(axes, radii):
+        s = b.copy()
+        for k in range(1, int(r) + 1):
+            if k >= b.shape[ax]:
+                break
+            lo = [slice(None)] * b.ndim
+            hi = [slice(None)] * b.ndim
+            lo[ax] = slice(k, None)
+            hi[ax] = slice(None, -k)
+            s[tuple(lo)] += (k + 1) * b[tuple(hi)]
+            s[tuple(hi)] += (2 * k + 3) * b[tuple(lo)]
+        b = s
+    return b
+
+
 def _ffill_block(x, axis=0, dtype=None):
     x = np.asarray(x, dtype=float)
     x = np.moveaxis(x, axis, -1).copy()
@@ -591,9 +610,10 @@ def check_case(ctx, case):
                     pw[ax] = (dep, dep)
                     padded = np.pad(padded, pw, mode=PAD_MODE[b]) if b in PAD_MODE else np.pad(padded, pw, mode="constant", constant_values=b)
                     sl.append(slice(dep, -dep))
-                want = sten_all(padded, axes)[tuple(sl)][index]
+                radii = [depth[ax] for ax in axes]
+                want = sten_r(padded, axes, radii)[tuple(sl)][index]
                 phase = "impl"
-                r = da.map_overlap(sten_all, d, depth=depth, boundary=boundary, dtype=x.dtype, axes=axes)[index]
+                r = da.map_overlap(sten_r, d, depth=depth, boundary=boundary, dtype=x.dtype, axes=axes, radii=radii)[index]
                 got = r.compute()
                 if tuple(r.shape) != want.shape and same(got, want, exact):
                     c = dict(case)
@@ -642,9 +662,10 @@ def check_case(ctx, case):
                         else:
                             padded = np.pad(padded, pw, mode="constant", constant_values=b)
                         sl.append(slice(dep, -dep))
-                    want = sten_all(padded, axes)[tuple(sl)]
+                    radii = [depth[ax] for ax in axes]
+                    want = sten_r(padded, axes, radii)[tuple(sl)]
                     phase = "impl"
-                    got = da.map_overlap(sten_all, d, depth=depth, boundary=boundary, dtype=x.dtype, axes=axes).compute()
+                    got = da.map_overlap(sten_r, d, depth=depth, boundary=boundary, dtype=x.dtype, axes=axes, radii=radii).compute()
             elif kind == "diff":
                 sig = "diff"
                 want = np.diff(x, n=case["n"], axis=case["axis"])
